@@ -3,6 +3,8 @@ import re
 
 from .model import GRAPH_CLASSES, LDG, LUG, DMG, UMG, DWG, UWG, NS, short
 from .report import Finding, RuleResult
+from .terms import Terms
+from .ir import short_type
 
 NONREENTRANT = {'rand', 'srand', 'strtok', 'localtime', 'gmtime', 'asctime', 'ctime', 'setlocale', 'tmpnam',
                 'strerror', 'getlogin', 'ttyname'}
@@ -479,6 +481,54 @@ def rule_valsem(m):
             else:
                 res.ok(dict(cls=cname, field=f['name'], type=f['type']) if len(res.samples) < 8 else None)
     res.require_sites(10, 'classes / fields')
+    return res
+
+
+SCALARS = ('unsigned', 'int', 'long', 'short', 'char', 'bool', 'double', 'float', 'size_t')
+
+
+def _is_scalar(ct):
+    ct = ct.replace('const ', '').strip()
+    return ct.split(' ')[0] in SCALARS or ct.endswith('*')
+
+
+def rule_init(m):
+    """D-INIT: no constructor of a library class leaves a scalar member indeterminate."""
+    res = RuleResult('D-INIT', 'every user-written constructor of a library class initialises every scalar data member '
+                               '(default member initialiser, member-initialiser list, delegation, or an assignment in its '
+                               'body): no observer or update reads an indeterminate value')
+    fields_of = {}
+    for u, r in _records(m, m.std):
+        if not r['tname'].startswith(NS):
+            continue
+        for fl in r['fields']:
+            fields_of.setdefault(r['tname'], {}).setdefault(fl['name'], (fl['ctype'], _loc(u, fl['loc'])))
+    for f in m.fns:
+        if not f.is_ctor or not (f.record or '').startswith(NS) or f.is_lambda:
+            continue
+        inits = f.d.get('inits', [])
+        if any(i.get('delegating') for i in inits):
+            continue
+        done = {f.unit.decl(i['field'])['name'] for i in inits if 'field' in i}
+        tt = Terms(f)
+        for n in f.nodes:
+            if n['k'] == 'BinaryOperator' and n.get('op') == '=':
+                t = tt.t(n['c'][0])
+                if t[0] == 'field':
+                    done.add(t[1].split('::')[-1])
+        for name, (ct, loc) in sorted(fields_of.get(f.record, {}).items()):
+            if not _is_scalar(ct):
+                continue
+            res.sites += 1
+            if name in done:
+                res.ok(dict(constructor=f.display(), member=name) if len(res.samples) < 10 else None, fn=f.display())
+            else:
+                res.fail(Finding('D-INIT', f.display(), 'member ' + name, f.where(),
+                                 'constructor %s(%s) leaves the %s member `%s` (declared at %s) without an initial value: it has no '
+                                 'default member initialiser and is not in this constructor\'s initialiser list, so objects built '
+                                 'through it read an indeterminate value' % (f.display(), ', '.join(short_type(c) for c in f.cptypes)[:80],
+                                                                          ct, name, loc)))
+    res.require_sites(10, 'constructor x scalar member')
     return res
 
 
